@@ -80,7 +80,8 @@ def forward (lat lon : F64) (setzone : Int) (mgrslimits : Bool) (kern : F64 × F
   if utmp then
     let lon0 := centralMeridian zone1
     let dlon := (MathF.angDiff lon0 lon).1
-    if !(F64.le (F64.abs dlon) (F64.ofInt 60)) then throw "more than 60d from centre of zone"   -- two-sided since repair f1d86bf (F94)
+    -- two-sided since fix f1d86bf (the western side used to be left to CheckCoords, which lets the NaN of the singular point through)
+    if !(F64.le (F64.abs dlon) (F64.ofInt 60)) then throw "more than 60d from centre of zone"
   else
     if F64.lt (F64.abs lat) (F64.ofInt 70) then throw "more than 20d from pole"
   let (x1, y1, g1, k1) := kern
@@ -181,5 +182,77 @@ def transfer (zonein : Int) (northpin : Bool) (xin yin : F64) (zoneout : Int) (n
     let yout := if o.northp ≠ northpout then o.y + F64.ofInt ((if northpout then -1 else 1) * mgrs_utmNshift) else o.y
     pure (o.x, yout, o.zone)
   else transferSameZone zonein northpin xin yin northpout
+
+
+/-! ## `UTMShift`, the WGS84 constants -/
+
+/-- `UTMUPS::UTMShift()` = `real(MGRS::utmNshift_)` -/
+def utmShift : F64 := F64.ofInt mgrs_utmNshift
+
+/-- `Constants::WGS84_a()`, `Constants::WGS84_f()` as written in Constants.hpp: `6378137`, `1 / (298257223563 / 1000000000)` -/
+def wgs84a : F64 := F64.ofInt 6378137
+def wgs84f : F64 := (1 : F64) / (F64.ofInt 298257223563 / F64.ofInt 1000000000)
+
+/-! ## GeoCoords: the UTM/UPS part of its state, `FixHemisphere`, `SetAltZone`
+
+The conversions themselves (`UTMUPS::Forward`, `UTMUPS::Reverse`) are kernels. -/
+
+structure GeoState where
+  zone : Int
+  northp : Bool
+  easting : F64
+  northing : F64
+  gamma : F64
+  k : F64
+  lat : F64
+  lon : F64
+
+structure AltState where
+  zone : Int
+  easting : F64
+  northing : F64
+  gamma : F64
+  k : F64
+
+/-- `GeoCoords::CopyToAlt` -/
+def copyToAlt (s : GeoState) : AltState := ⟨s.zone, s.easting, s.northing, s.gamma, s.k⟩
+
+/-- `GeoCoords::FixHemisphere`: a hemisphere label that contradicts the latitude is corrected by the northing shift (UTM) or refused (UPS) -/
+def fixHemisphere (s : GeoState) : Except Err GeoState :=
+  if F64.eq s.lat 0 || (s.northp && F64.ge s.lat 0) || (!s.northp && F64.lt s.lat 0) || s.lat.isNaN then .ok s
+  else if s.zone ≠ zUPS then
+    .ok { s with northing := s.northing + (if s.northp then utmShift else -utmShift), northp := !s.northp }
+  else .error "Hemisphere mixup"
+
+/-- `GeoCoords::Reset(zone, northp, easting, northing)`; `rev` = `(lat, lon, γ, k)` returned by `UTMUPS::Reverse` (or its exception) -/
+def resetUTM (zone : Int) (northp : Bool) (x y : F64) (rev : Except Err (F64 × F64 × F64 × F64)) : Except Err GeoState := do
+  let (lat, lon, g, k) ← rev
+  fixHemisphere ⟨zone, northp, x, y, g, k, lat, lon⟩
+
+/-- `GeoCoords::Reset(latitude, longitude, zone)`; `fwd` = `UTMUPS::Forward(lat, lon, …, zone)` -/
+def resetLatLon (lat lon : F64) (zone : Int) (fwd : F64 → F64 → Int → Except Err FwdOut) : Except Err GeoState := do
+  let o ← fwd lat lon zone
+  pure ⟨o.zone, o.northp, o.x, o.y, o.gamma, o.k, lat, MathF.angNormalize lon⟩
+
+/-- the northing `y` that `Forward` reports under the label `fnorthp`, re-expressed under the label `northp` of the object (fix 46b5aee):
+    the labels can differ only on the equator; UPS (zone 0) is never relabelled -/
+def altNorthing (zone : Int) (northp fnorthp : Bool) (y : F64) : F64 :=
+  if fnorthp ≠ northp ∧ zone > 0 then y + (if northp then -utmShift else utmShift) else y
+
+/-- `GeoCoords::SetAltZone(zone)`: `alt` is the alternate state before the call, `fwd` = `UTMUPS::Forward(lat, lon, …, setzone)`.
+    The alternate coordinates are reported with the hemisphere of the object. -/
+def setAltZone (s : GeoState) (alt : AltState) (zone : Int) (fwd : F64 → F64 → Int → Except Err FwdOut) : Except Err AltState :=
+  if zone = zMATCH then .ok alt
+  else do
+    let z ← standardZone s.lat s.lon zone
+    if z = s.zone then pure (copyToAlt s)
+    else
+      let o ← fwd s.lat s.lon z
+      pure ⟨o.zone, o.x, altNorthing o.zone s.northp o.northp o.y, o.gamma, o.k⟩
+
+/-- `GeoCoords::UTMUPSRepresentation(northp, …)` / `AltUTMUPSRepresentation(northp, …)`: the coordinates printed under the requested label
+    (`Transfer` within the zone) -/
+def relabel (zone : Int) (northp : Bool) (x y : F64) (label : Bool) : Except Err (F64 × F64) :=
+  (transferSameZone zone northp x y label).map fun (a, b, _) => (a, b)
 
 end GeoVerif.UTMUPS
